@@ -26,7 +26,8 @@ META = {
         'or derived from a fresh one, and parser.parse hands the caller\'s object only to functions with that '
         'property.  (D4) date-times with a zone name are converted with astimezone (shared with C17.D2); (D1) also: the text captured for Uri/Bin/Ref/str/XStr/unit reaches the constructor verbatim (no substitution, strip or case change between capture and constructor).  Also: the h: time fields are converted with int() on digit text (no float leg; fraction cut/padded as text, never scaled by its unsliced length).  Not decided: microsecond arithmetic results, tz application (C17), JSON text parsing.'
         ' Also (D4): the handler around the zone look-up catches what zoneinfo.timezone raises.'
-        ' Also (D2): parse entries compare the mode only after _parse_mode.'),
+        ' Also (D2): parse entries compare the mode only after _parse_mode.'
+        ' Also (D2): the document text reaches json.loads unchanged (text flow).  (D4) astimezone() sits in a handler that catches OverflowError.  (D1) greedy group splits.'),
     'rule_text': 'obligations = spellings x (first-accepting entry, whole-length match), type-order facts, structure '
                  'facts, destructive call sites x freshness',
     'trusted_base': ['json.loads and copy.deepcopy return objects that share nothing mutable with their argument'],
@@ -48,11 +49,15 @@ def run(ctx):
     _spellings(ctx, entries)
     _python_values(ctx, entries)
     J.verbatim_payload(ctx, 'C05.D1', entries, fn)
+    J.greedy_group_splits(ctx, 'C05.D1', entries)
     J.time_fields_exact(ctx, 'C05.D1', entries, fn)
     J.number_branch(ctx, 'C05.D1', entries, fn)
     J.parse_scalar_entry(ctx, 'C05.D2')
     from . import _dump
     _dump.mode_sanitised(ctx, 'C05.D2', 'parser')
+    # the document text reaches json.loads as it was given (no rewriting on the way; shared with C01.D5 / C03.D3 / C08.D1)
+    from . import _parse
+    _parse.text_flow(ctx, 'C05.D2')
     _structure(ctx)
     _freshness(ctx)
     # date-times with a zone name denote the written instant (clause shared with C17.D2)
